@@ -1,11 +1,11 @@
-"""C04 — glyph attachments always form a forest over the segment's own slots (DESIGN.md §6; partial: theorems cover the rule-action engine)."""
+"""C04 — glyph attachments always form a forest over the segment's own slots (DESIGN.md §0.2, §6; the forest invariant is proved for the whole modelled pipeline)."""
 import lib
 from props import heapcheck, heapspec, segspec
 import fontsynth
 
 GEN_MODULES = ["Vm"]
-ASSUMPTIONS = ["theorems: attachment primitives write only parent/child/sibling (frame theorems), attach refuses self/parent/copied/deleted targets and cycles; "
-               "the full forest invariant (child chains enumerate exactly the attached slots, for every action program) and linkClusters are decided by the correspondence and the end-to-end predicate, not by a theorem",
+ASSUMPTIONS = ["theorems: the forest invariant (child chains enumerate exactly the attached slots, no parent cycles, parents real and allocated) for every opcode, action program, garbage collection and the whole modelled left-to-right pipeline; frame and guard theorems; "
+               "not proved: that a parent is a slot of the stream (proved: real, allocated), and the base chain of linkClusters - decided by the correspondence and the end-to-end predicate",
                "the loader's acceptance tests are not modelled: the component harness only runs programs the real loader accepted",
                "scalar opcodes inside action code use the regenerated Gen.Vm bodies"]
 TRUSTED = ["hand-written model GrVerif/Model/{Seg,Action}.lean (tied by correspondence on action programs)", "tools/fontsynth.py (font synthesiser) and tools/heapgen.py"]
